@@ -76,7 +76,7 @@ func fuelPanic(ex *explore.Exec) bool {
 	return false
 }
 
-const mcRule = "case = (program, execution mode, monitor on/off); for each case every schedule of the real interpreter with total delay <= d (delay bounding over the canonical enabled order, d=1 quick, d=2 thorough; deviations from the default scheduler are taken at the first H scheduling points of an execution, H=60 quick, H=150 thorough) is executed under the controlled scheduler; states = distinct scheduler-state fingerprints per case (summed), transitions = atomic blocks executed; a case is non-trivial when it has >= 2 scheduling points"
+const mcRule = "case = (program, execution mode, monitor on/off); for each case every schedule of the real interpreter with total delay <= d (delay bounding over the canonical enabled order, d=1 quick, d=2 thorough; deviations from the default scheduler are taken at the first H scheduling points of an execution, H=60 quick, H=150 thorough) is executed under the controlled scheduler; states = distinct scheduler-state fingerprints per case (summed), transitions = atomic blocks executed; a case is non-trivial when it has >= 2 scheduling points; generated programs are explored without a monitor in the quick tier"
 
 var mcAssumptions = []string{
 	"interleavings of atomic blocks between channel operations; unsynchronised shared memory inside blocks is C13's subject",
@@ -93,6 +93,9 @@ func init() {
 			progs := runtimeProgs(c)
 			p := progs[idx/len(explore.AllConfigs)]
 			cfg := explore.AllConfigs[idx%len(explore.AllConfigs)]
+			if cfg.Monitor && strings.HasPrefix(p.Name, "gen/") && !c.Thorough() {
+				return // quick tier: the monitor configurations are explored on the corpus and examples only
+			}
 			reported := map[string]bool{}
 			exploreProgram(c, p, cfg, r, func(ex *explore.Exec) bool {
 				var problems []string
@@ -134,6 +137,9 @@ func init() {
 			progs := runtimeProgs(c)
 			p := progs[idx/4]
 			cfg := []explore.Config{{0, false}, {1, false}, {0, true}, {1, true}}[idx%4]
+			if cfg.Monitor && strings.HasPrefix(p.Name, "gen/") && !c.Thorough() {
+				return
+			}
 			reported := map[string]bool{}
 			exploreProgram(c, p, cfg, r, func(ex *explore.Exec) bool {
 				inScope := true
@@ -191,6 +197,12 @@ func init() {
 			cfgs := []explore.Config{{0, false}, {1, false}, {0, true}, {1, true}}
 			if ContractionFree(p.Text) {
 				cfgs = append(cfgs, explore.Config{Mode: 2}, explore.Config{Mode: 2, Monitor: true})
+			}
+			if strings.HasPrefix(p.Name, "gen/") && !c.Thorough() {
+				cfgs = []explore.Config{{0, false}, {1, false}}
+				if ContractionFree(p.Text) {
+					cfgs = append(cfgs, explore.Config{Mode: 2})
+				}
 			}
 			type obs struct {
 				cfg     explore.Config
